@@ -10,6 +10,7 @@ from ..ctx import sites
 from ..engines.typestate import signature
 from ..frontend import AnalysisError, Repo
 from ..model import model_of
+from ..rules import cell_name
 from . import typestate_common as TC
 from .common_own import rule_refcount_outputs
 
@@ -113,7 +114,7 @@ def check(repo: Repo, rep: Report) -> None:
     if len(ids_) == 1:
         wid = next(iter(ids_))
         for g_ in (ct_.child("action"), wt_.child("on_next")):
-            bump = [x for x in sites(g_) if isinstance(x.node, ast.AugAssign) and u(x.node.target) == wid]
+            bump = [x for x in sites(g_) if isinstance(x.node, ast.AugAssign) and cell_name(x.node.target) == wid]
             opens = [x for x in sites(g_) if isinstance(x.node, ast.Call) and u(x.node.func) == f"{wt_.params[0]}.on_next"]
             rep.ob("T2-generation", g_, f"{g_.qual}: `{wid} += 1` on the path that opens the next window", bool(bump) and bool(opens) and bump[0].ctx.branch == opens[0].ctx.branch and bump[0].index < opens[0].index,
                    f"{g_.qual} opens the next window without advancing the window id first")
